@@ -84,14 +84,14 @@ def full_cover_corner(bottom: dict, top: dict) -> bool:
 # ------------------------------------------------------------------ generators
 
 
-def _port_related(rng, top, small=None):
+def _port_related(rng, top, small=None, multi=False):
     """Derive a bottom port expression text from the top's (op, operands, set) or None."""
     hi = small["ports"] if small else 65535
     roll = rng.random()
     if top is None:
         if roll < 0.5:
             return None
-        return _rand_port_text(rng, small)
+        return _rand_port_text(rng, small, multi)
     tset = top
     if roll < 0.15:
         return None
@@ -104,16 +104,19 @@ def _port_related(rng, top, small=None):
         if kind < 0.4:
             return f"eq {a}"
         if kind < 0.8:
+            # a range between two members of the top set (spans a hole when the top lists separate ports)
+            if len(tset) > 1 and rng.random() < 0.5:
+                return f"range {tset[0][0]} {tset[-1][1]}"
             return f"range {a} {b}"
         if lo == 1:
             return f"lt {b + 1}" if b + 1 <= 65535 else f"eq {a}"
         if hi_ == hi == 65535:
             return f"gt {a - 1}" if a > 1 else f"eq {a}"
         return f"eq {a}"
-    return _rand_port_text(rng, small)
+    return _rand_port_text(rng, small, multi)
 
 
-def _rand_port_text(rng, small=None, multi=True):
+def _rand_port_text(rng, small=None, multi=False):
     hi = small["ports"] if small else 65535
     op = rng.choice(["eq", "eq", "neq", "lt", "gt", "range"])
 
@@ -123,6 +126,13 @@ def _rand_port_text(rng, small=None, multi=True):
         return rng.choice([1, 2, 20, 21, 22, 23, 80, 443, 1023, 1024, 65534, 65535, rng.randint(1, 65535)])
 
     if op in ("eq", "neq"):
+        if multi and rng.random() < 0.35:  # IOS lists several ports: the set has holes
+            vals = []
+            for _ in range(rng.randint(2, 4)):
+                v = val()
+                if v not in vals:
+                    vals.append(v)
+            return f"{op} " + " ".join(str(v) for v in vals)
         return f"{op} {val()}"
     if op == "range":
         return f"range {val()} {val()}"
@@ -167,7 +177,7 @@ def derive_bottom(rng, top: dict, platform: str, small=None, kmax=3) -> dict:
     bot["src"], bot["src_items"] = rel(top["src"]), None
     bot["dst"], bot["dst_items"] = rel(top["dst"]), None
     for side in ("sport", "dport"):
-        bot[side] = _port_related(rng, _port_sem(top.get(side)), small) if bot["proto"] in (6, 17) else None
+        bot[side] = _port_related(rng, _port_sem(top.get(side)), small, platform == "ios") if bot["proto"] in (6, 17) else None
     if bot["proto"] == 6:
         if top.get("flags") and rng.random() < 0.6:
             bot["flags"] = rng.sample(top["flags"], rng.randint(1, len(top["flags"])))
@@ -223,9 +233,10 @@ def gen_related_pair(rng, platform: str, *, groups: bool, small=None, kmax=3) ->
     bot["src"], bot["src_items"] = addr_text(sb, 0.3)
     bot["dst"], bot["dst_items"] = addr_text(db, 0.3)
     for side in ("sport", "dport"):
-        top[side] = _rand_port_text(rng, small) if proto_t in (6, 17) and rng.random() < 0.45 else None
+        multi = platform == "ios"
+        top[side] = _rand_port_text(rng, small, multi) if proto_t in (6, 17) and rng.random() < 0.45 else None
         if proto_b in (6, 17):
-            bot[side] = _port_related(rng, _port_sem(top[side]), small)
+            bot[side] = _port_related(rng, _port_sem(top[side]), small, multi)
         else:
             bot[side] = None
     top["flags"] = rng.sample(list(names.TCP_FLAGS), rng.randint(1, 3)) if proto_t == 6 and rng.random() < 0.25 else []
@@ -262,6 +273,20 @@ def _clamp(cube, small):
     w &= small["size"] - 1
     v = small["base"] | (v & (small["size"] - 1))
     return bits.cube(v, w)
+
+
+def unify_groups(descs: list, table: dict | None = None) -> dict:
+    """Within one ACL a group name denotes one member list: the first occurrence defines it for all entries."""
+    table = {} if table is None else table
+    for desc in descs:
+        for side in ("src", "dst"):
+            text = desc.get(side) or ""
+            toks = text.split()
+            if len(toks) == 2 and toks[0] in ("object-group", "addrgroup"):
+                if toks[1] not in table:
+                    table[toks[1]] = list(desc.get(side + "_items") or [])
+                desc[side + "_items"] = list(table[toks[1]])
+    return table
 
 
 def compose(desc: dict, platform: str, seq: int = 0, names_ok=False) -> str:
